@@ -73,13 +73,28 @@ def build_network(spec):
     """Network object from a spec, through the library's own edge-list -> network conversion."""
     el = LightWeightEdgeList()
     el.joint_degrees = spec_jds(spec)
+    if spec.get("jd_type") == "list":
+        el.joint_degrees = [list(r) for r in el.joint_degrees]        # as a JSON / hand-built jds would be stored
     for mid, m in enumerate(spec["motifs"]):
         t = spec["topos"][m["topo"]]
         for e in motif_edges(t["kind"], m["verts"]):
             el.edge_list.append(tuple(e))
             el.topologies.append(t["name"])
             el.motif_id.append(mid)
-    return EdgeListToNetwork.convert(el)
+    net = EdgeListToNetwork.convert(el)
+    decorate(net.G, spec.get("extra_attrs"))
+    return net
+
+
+def decorate(G, extra):
+    """Extra node / edge attributes with semantically loaded names (scenario field extra_attrs = [name, kind])."""
+    if not extra:
+        return
+    name, kind = extra
+    for k, (u, v) in enumerate(G.edges()):
+        G.edges[u, v][name] = (2 + k % 3) if kind == "int" else (0.5 + (k % 4)) if kind == "float" else f"x{k % 3}"
+    for k, v in enumerate(G.nodes()):
+        G.nodes[v][name] = (3 + k % 2) if kind == "int" else (1.5 + (k % 3)) if kind == "float" else f"n{k % 2}"
 
 
 def names(spec):
